@@ -199,6 +199,49 @@ def unencodable(ctx, res, stats):
     c.close()
 
 
+def open_races(ctx, res, stats, nsched):
+    """a second handle is opened (Cache.__init__ re-applies the settings) while another client writes:
+    every interleaving must leave counters and files consistent (schedule driver)"""
+    for i in range(nsched):
+        d = ctx.scratch('c08o')
+        clock = instr.Clock(1000.0)
+        with instr.Installed(clock):
+            base = diskcache.Cache(d, timeout=0, disk_min_file_size=8)
+            base.set('a', 'x' * 40)
+            base.set('b', 1)
+            holder = {}
+
+            def prog_open():
+                holder['c2'] = diskcache.Cache(d, timeout=0)
+                return 'opened'
+
+            def prog_write():
+                base.set('c', 'y' * 50, retry=True)
+                base.delete('b', retry=True)
+                base.set('d', 2, retry=True)
+                base.incr('n', retry=True)
+                return 'written'
+            s = sched.Scheduler(clock, max_steps=6000)
+            schedule = [ctx.rng.choice([0, 0, 1]) for _ in range(200)]
+            out = s.run([prog_open, prog_write], schedule, warmups=[None, lambda: base._con])
+            for c_ in (holder.get('c2'), base):
+                try:
+                    if c_ is not None:
+                        c_.close()
+                except Exception:
+                    pass
+        stats['open_race_runs'] = stats.get('open_race_runs', 0) + 1
+        res.count(['openrace', i, tuple(schedule[:40])], nontrivial=True)
+        if out['overflow'] or any(e is not None for e in out['errors']):
+            res.violations.append(fw.Violation('open_race_error', 'opening a second handle while another client writes: errors %r overflow %r' % (
+                [repr(e)[:80] for e in out['errors']], out['overflow']), {'check': 'open_race', 'schedule': schedule}))
+            continue
+        bad, _ = consistency(d)
+        for sig, text in bad[:1]:
+            res.violations.append(fw.Violation('open_race:' + sig, text + ' after a handle was opened concurrently with writes',
+                                               {'check': 'open_race', 'schedule': schedule}))
+
+
 def witnesses(res):
     import tempfile, shutil
     d = tempfile.mkdtemp(prefix='c08wit-')
@@ -252,10 +295,12 @@ def run(ctx, big=False):
     terms, recs = plain_histories(ctx, res, 20 if not thorough else 120, 60 if not thorough else 150, stats)
     fault_histories(ctx, res, 30 if not thorough else 300, 40, stats)
     unencodable(ctx, res, stats)
+    open_races(ctx, res, stats, 12 if not thorough else 150)
     if not ctx.search_mode:
         correspondence(ctx, res, terms, recs)
     res.extra.update({'states_checked': stats['states'], 'file_backed_rows_seen': stats['file_rows'],
-                      'fault_histories': stats['fault_runs'], 'faults_that_fired': stats['faults_fired']})
+                      'fault_histories': stats['fault_runs'], 'faults_that_fired': stats['faults_fired'],
+                      'open_race_schedules': stats.get('open_race_runs', 0)})
     witnesses(res)
     return res
 
